@@ -129,12 +129,6 @@ theorem NoFin.of_eq {U : Universe} {s s' : State} (h : NoFin U s) (hc : s'.cfg =
     by rw [hh, hst]; exact h.closed, by rw [hh]; exact h.fuel, by rw [hh, hc, hk]; exact h.recs,
     by rw [hc, hst, ht]; exact h.tree, by rw [hc, hh, ht]; exact h.covers⟩
 
-theorem header_of_stored {s : State} {i : Nat} (h : stored s i) : ∃ hd, s.header i = some hd ∧ hd ∈ s.headers ∧ hd.id = i := by
-  unfold stored at h
-  cases e : s.header i with
-  | none => simp [e] at h
-  | some hd => exact ⟨hd, rfl, (lookupHeader_some e).1, (lookupHeader_some e).2⟩
-
 /-- the stored parent of a non-root stored block is one lower -/
 theorem NoFin.parent {U : Universe} {s : State} (h : NoFin U s) {hb : Header} (hm : hb ∈ s.headers) (hne : hb.height ≠ 0) :
     ∃ pp, s.header hb.parent = some pp ∧ pp ∈ s.headers ∧ pp.id = hb.parent ∧ hb.height = pp.height + 1 := by
